@@ -408,7 +408,7 @@ Fixpoint run_steps (s : cset) (ops : list op) : list val :=
   | [] => []
   | o :: r =>
       let '(v, s', stop) := step s o in
-      VL [v; enc_set s'] :: (if stop then [] else run_steps s' r)
+      VL [v; if stop then VNone else enc_set s'] :: (if stop then [] else run_steps s' r)
   end.
 
 (* stream "ops": (mutable, initial raw entries, op sequence) *)
